@@ -279,7 +279,11 @@ static void run_case(uint64_t idx)
 				if (newcfg_valid && nold < 16) oldcfgs[nold++] = newcfg;   // keep alive; freed at the end
 				gen_cfg(&r, &newcfg, (unsigned)VCFG_XZ & ~(unsigned)VCFG_ALLOW_BCJ, 1u << 18); newcfg_valid = true;
 				ur = lzma_filters_update(&c.strm, newcfg.filters); what = "new-chain-between-blocks";
-				if (ur == LZMA_OK) { can_sync = true; cur = &newcfg; hist_add(&c, "{upd chain %s}", newcfg.desc); }
+				if (ur == LZMA_OK) {
+					can_sync = true; cur = &newcfg; hist_add(&c, "{upd chain %s}", newcfg.desc);
+					// the pending lc/lp/pb interrupt was built from the original chain: it would now be a chain change
+					if (c.intr_kind == 2 && !c.intr_done) c.intr_kind = 0;
+				}
 			} else if (a == LZMA_SYNC_FLUSH && u == 1 && can_sync) {
 				newopt.lc = vrng_below(&r, 5); newopt.lp = vrng_below(&r, 5 - newopt.lc); newopt.pb = vrng_below(&r, 5);
 				newf[cur->nfilters - 1].options = &newopt;
